@@ -553,3 +553,55 @@ Proof.
   - unfold var_ep. rewrite <- (clamp0_scale (c * c) _ Hcc). apply clamp0_proper.
     rewrite !var_ep_raw_eq, Ha, H2, Hn'. field. lra.
 Qed.
+
+(* ------------------------------------------------------------------ one object, many calls *)
+Lemma run_app s ops1 ops2 :
+  run s (ops1 ++ ops2) = let (s1, o1) := run s ops1 in let (s2, o2) := run s1 ops2 in (s2, o1 ++ o2).
+Proof.
+  revert s. induction ops1 as [|o r IH]; intros s; cbn [run app].
+  - destruct (run s ops2) as [s2 o2]. reflexivity.
+  - destruct (step s o) as [s1 out1]. rewrite IH.
+    destruct (run s1 r) as [s1' o1]. destruct (run s1' ops2) as [s2 o2]. rewrite app_assoc. reflexivity.
+Qed.
+
+(* the answer to a predict call is a function of the CURRENT trees and floor only - whatever happened before *)
+Lemma session_answer s ops r :
+  run s (ops ++ [OPredict r]) =
+  (fst (run s ops), snd (run s ops) ++ [predict r (fst (fst (run s ops))) (snd (fst (run s ops)))]).
+Proof. rewrite run_app. destruct (run s ops) as [s1 o1]. cbn. reflexivity. Qed.
+
+Lemma session_history_independent s s' ops ops' r :
+  fst (run s ops) = fst (run s' ops') ->
+  last (snd (run s (ops ++ [OPredict r]))) [] = last (snd (run s' (ops' ++ [OPredict r]))) [].
+Proof. intros H. rewrite !session_answer. cbn [snd]. rewrite !last_last, H. reflexivity. Qed.
+
+(* predict does not change the state; asking twice gives the same answer twice *)
+Lemma session_predict_pure s r1 r2 :
+  run s [OPredict r1; OPredict r2] = (s, [predict r1 (fst s) (snd s); predict r2 (fst s) (snd s)]).
+Proof. reflexivity. Qed.
+
+(* a warm start is a forest over the old trees followed by the new ones *)
+Lemma session_warm s extra r :
+  snd (run s [OWarm extra; OPredict r]) = [predict r (fst s) (snd s ++ extra)].
+Proof. reflexivity. Qed.
+
+(* pooling: statistics of the extended forest from those of the two parts - the law of total variance once more,
+   with the two groups of trees in the role of the trees *)
+Lemma var_of_means_alt ts : ts <> [] -> var_of_means ts == sumf f_m2 ts / nQ ts - avg ts * avg ts.
+Proof. intros Hne. unfold var_of_means. rewrite <- (var_ep_raw_dev 0 ts Hne), var_ep_raw_eq. reflexivity. Qed.
+
+Lemma pooling minv a b : a <> [] -> b <> [] ->
+  let na := nQ a in let nb := nQ b in
+  avg (a ++ b) == (na * avg a + nb * avg b) / (na + nb) /\
+  avg_leaf_var minv (a ++ b) == (na * avg_leaf_var minv a + nb * avg_leaf_var minv b) / (na + nb) /\
+  var_of_means (a ++ b) == (na * var_of_means a + nb * var_of_means b) / (na + nb)
+                           + na * nb * ((avg a - avg b) * (avg a - avg b)) / ((na + nb) * (na + nb)).
+Proof.
+  intros Ha Hb na nb. pose proof (nQ_pos a Ha) as Pa. pose proof (nQ_pos b Hb) as Pb. fold na in Pa. fold nb in Pb.
+  assert (Hab : a ++ b <> []) by (destruct a; [congruence|discriminate]).
+  repeat split.
+  - unfold avg. rewrite sumf_app, nQ_app. fold na nb. field. lra.
+  - unfold avg_leaf_var. rewrite sumf_app, nQ_app. fold na nb. field. lra.
+  - rewrite (var_of_means_alt _ Hab), (var_of_means_alt _ Ha), (var_of_means_alt _ Hb).
+    unfold avg. rewrite !sumf_app, nQ_app. fold na nb. field. lra.
+Qed.
